@@ -12,7 +12,7 @@ import json
 import numpy as np
 import pandas as pd
 
-from sim import specs, canon, core, seams
+from sim import specs, canon, core, seams, refsolve
 
 ID = "C15"
 DEFAULT_SEED = {"quick": 1515, "thorough": 2515}
@@ -120,30 +120,8 @@ def gen_plan(rng, run_index, tier, opts):
 
 
 def reference_solve(op, bools):
-    """scipy.optimize.milp directly on (c,l,u,A,b,cType): (status, value) - no cvxpy in the path."""
-    from scipy.optimize import milp, LinearConstraint, Bounds
-    import scipy.sparse as sp
-    n = len(op.c)
-    cons = []
-    if op.A is not None and op.A.shape[0] > 0:
-        A = sp.csr_matrix(op.A)
-        b = np.asarray(op.b, dtype=float)
-        lo = np.full(len(b), -np.inf)
-        hi = np.full(len(b), np.inf)
-        for i, t in enumerate(op.cType):
-            if t == "U":
-                hi[i] = b[i]
-            elif t == "L":
-                lo[i] = b[i]
-            else:
-                lo[i] = hi[i] = b[i]
-        cons = [LinearConstraint(A, lo, hi)]
-    integrality = np.zeros(n)
-    for i in bools:
-        integrality[i] = 1
-    r = milp(c=np.asarray(op.c, dtype=float), constraints=cons, integrality=integrality,
-             bounds=Bounds(np.asarray(op.l, dtype=float), np.asarray(op.u, dtype=float)))
-    return r.status, (None if r.x is None else -float(r.fun)), r.x
+    """('optimal'|'infeasible'|'unknown', value, verified witness) - see sim/refsolve.py"""
+    return refsolve.solve(op, bools)
 
 
 def bool_vars(op):
@@ -381,13 +359,19 @@ class Desk:
         if isinstance(res, str):
             self.events.append((k, "solve:" + res))
             if clean and x_feasible_by_construction and res == "not successful":
-                # the held solution itself is a feasible point of the fixed problem
-                st, val, _ = reference_solve(op, bool_vars(op))
-                if st == 0:
-                    self.viol("F5-fixed-problem-reported-infeasible", k,
-                              "re-solve with the window fixed to the held solution reports '%s' but the reference solver finds the fixed problem feasible (value %r)" % (res, val),
-                              field="liveness")
+                # EAO's part: the held solution must be a feasible point of the problem it built (numpy check).
+                # If it is, a peer that calls this problem infeasible is wrong by its own tolerances (counted).
+                mv = refsolve.max_violation(op, x_ref[:n], bool_vars(op))
+                mv_free = refsolve.max_violation(op_free, x_ref[:n], bool_vars(op_free))
+                if mv_free > 1e-6:
+                    # the new curve changed capacities taken from the price table: the held solution is simply outdated
+                    self.stats["held_solution_outdated"] = self.stats.get("held_solution_outdated", 0) + 1
+                elif mv > 1e-6:
+                    self.viol("F5-held-solution-infeasible-in-fixed-problem", k,
+                              "re-solve with the window fixed to the held solution reports '%s', and the held solution violates the "
+                              "fixed problem by %.3g (scaled)" % (res, mv), field="liveness")
                 else:
+                    self.stats["peer_false_infeasible"] = self.stats.get("peer_false_infeasible", 0) + 1
                     self.stats["inconclusive"] += 1
             elif clean and res.startswith("raised"):
                 self.stats["inconclusive"] += 1
@@ -399,7 +383,8 @@ class Desk:
         x = np.asarray(res.x, dtype=float)
         self.stats["f4_checked"] += 1
         dev = np.abs(x[fixed] - x_ref[:n][fixed])
-        tol = X_TOL * (1 + np.abs(x_ref[:n][fixed]))
+        # the peer honours l == u only to its own tolerance, which is relative to the scale of the whole problem
+        tol = X_TOL * (1 + np.abs(x_ref[:n][fixed])) + 1e-7 * (1 + float(np.abs(x).max(initial=0)))
         if dev.size and (dev > tol).any():
             j = int(np.where(fixed)[0][int(np.argmax(dev - tol))])
             self.viol("F4-window-variable-moved", k, "variable %d (%s): new value %r, previous %r" % (j, describe_var(m, j), x[j], x_ref[j]),
@@ -410,11 +395,25 @@ class Desk:
         superset = self.fixed_prev is None or (len(self.fixed_prev) == n and not (self.fixed_prev & ~fixed).any())
         if same_curve and self.v_prev is not None and superset:
             self.stats["f5_checked"] += 1
-            if abs(res.value - self.v_prev) > VALUE_TOL * (1 + abs(self.v_prev)) * 10:
-                self.viol("F5-value-changed-with-unchanged-prices", k,
-                          "value %r after fixing the window to the held optimum, %r before (same prices)" % (float(res.value), self.v_prev),
-                          field="value")
-                return
+            tolv = VALUE_TOL * (1 + abs(self.v_prev)) * 10
+            if abs(res.value - self.v_prev) > tolv:
+                # Who is responsible?  EAO's part of F5 is that the held optimum is still a feasible point of the
+                # fixed problem and still worth v_prev there (numpy check).  If it is, a different value can only
+                # mean that the peer returned a sub-optimal 'optimal' now or before - a solver defect, counted,
+                # not charged to EAO (HiGHS in scipy 1.14 does this on some small MIPs).
+                xh = x_ref[:n]
+                mv = refsolve.max_violation(op, xh, bool_vars(op))
+                vh = float(-np.asarray(op.c, float) @ xh)
+                if mv <= 1e-6 and abs(vh - self.v_prev) <= tolv:
+                    self.stats["peer_suboptimal"] = self.stats.get("peer_suboptimal", 0) + 1
+                    self.events.append((k, "peer-suboptimal"))
+                    if res.value < self.v_prev:
+                        return  # keep the better solution the desk already holds
+                else:
+                    self.viol("F5-value-changed-with-unchanged-prices", k,
+                              "value %r after fixing the window to the held optimum, %r before (same prices); in the fixed problem the held "
+                              "optimum has violation %.3g and value %r" % (float(res.value), self.v_prev, mv, vh), field="value")
+                    return
         self.stats["liveness_checked"] += 1
         if x_kind in ("solution", "longer", "slp"):
             self.accept(res, op, tk["curve"], fixed.copy())
